@@ -12,6 +12,7 @@ THEOREMS = [
     "Typedpy.C20.no_shared_writes_frame", "Typedpy.C20.no_shared_writes_linearizable",
     "Typedpy.C20.thread_private_frame", "Typedpy.C20.conflict_free_linearizable", "Typedpy.C20.conflictFreeB_sound",
     "Typedpy.C20.C20_partial", "Typedpy.C20.no_foreign_values",
+    "Typedpy.C20.distinct_declarations_linearizable", "Typedpy.C20.aliases_ok", "Typedpy.C20.aliases_nonvacuous",
     "Typedpy.C20.counter_wrong_element_extract_field_value", "Typedpy.C20.counter_missing_key_extract_field_value",
     "Typedpy.C20.counter_wrong_field_named_extract_field_value", "Typedpy.C20.not_linearizable_extract_field_value",
     "Typedpy.C20.counter_wrong_element_tuple", "Typedpy.C20.counter_missing_key_set",
@@ -26,7 +27,7 @@ RULE = ("one case = (shape = class shared by the threads, 2-3 thread operations 
         "AND with the Lean model's prediction for the observed event order; stream E: same schedules on nested "
         "collections, AnyOf/OneOf/AllOf/NotField, ImmutableSet, nested structures, scalars (oracle only); stream B: "
         "construct/deserialize/setattr/serialize mixes, pre-emption at ANY line of ANY typedpy file, sampled schedules "
-        "(oracle only). evaluations counts cases; each case runs 25-1500 schedules (histogram schedules-per-case). "
+        "(oracle only); twin streams (A/E/B): the same declaration spelling (Optional[..], AnyOf[.., None], X | None, Union, list[Optional], Array/Set/Map/Tuple, ...) written out freshly for two differently named fields and a second class, every thread on a DIFFERENT declaration, explicit None / values the earlier options reject / valid values, directed None||None and None||rejected cases - must be sequential. evaluations counts cases; each case runs 25-1500 schedules (histogram schedules-per-case). "
         "non-trivial = >= 2 threads on a non-scalar shape, distinct by sha256 of the case")
 ASSUMPTIONS = [
     "PARTIAL: pre-emption only at statement/line boundaries inside typedpy files, driven by sys.settrace with one "
@@ -40,6 +41,8 @@ ASSUMPTIONS = [
     "schedule so that first-use races are exercised",
 ]
 TRUSTED_EXTRA = [
+    "extract/field_aliases.py (dynamic probe: every declaration spelling written out freshly for two fields and a second "
+    "class; Field objects reachable from two declarations -> Generated/FieldAliases.lean); covers the listed spellings only",
     "extract/shared_writes.py (AST scan of the working tree -> Generated/SharedWrites.lean) and its classification of "
     "written values (perCall / ownerName / definitionOnly / keyedCache)",
     "harness/suites/sched.py scheduler: a schedule is realised faithfully (one thread at a time, switch only at yield points)",
@@ -48,6 +51,8 @@ TRUSTED_EXTRA = [
 
 def pre_build():
     SW.regenerate()
+    from extract import field_aliases as FA
+    FA.regenerate()
     # the Lean list of known-finding keys must be the keys of the fragment file
     root = os.path.dirname(os.path.dirname(os.path.dirname(os.path.abspath(__file__))))
     frag = json.load(open(os.path.join(root, "known_findings_C20.json")))
